@@ -1,13 +1,17 @@
 // type model: the two variants of DataType / ScalarValue that boolean (truth-value) intervals use
 #[derive(PartialEq, Eq, Structural, Clone, Copy)]
-pub enum DataType { Boolean, Other }
+pub enum DataType { Boolean, Int64, Other }
 #[derive(PartialEq, Eq, Structural, Clone, Copy)]
-pub enum ScalarValue { Boolean(Option<bool>), Other }
+pub enum ScalarValue { Boolean(Option<bool>), Int64(Option<i64>), Other }
 impl ScalarValue {
-    pub open spec fn spec_data_type(self) -> DataType { match self { ScalarValue::Boolean(_) => DataType::Boolean, ScalarValue::Other => DataType::Other } }
+    pub open spec fn spec_data_type(self) -> DataType { match self { ScalarValue::Boolean(_) => DataType::Boolean, ScalarValue::Int64(_) => DataType::Int64, ScalarValue::Other => DataType::Other } }
     /// ScalarValue::data_type on the model
     pub fn data_type(&self) -> (r: DataType) ensures r == self.spec_data_type() {
-        match self { ScalarValue::Boolean(_) => DataType::Boolean, ScalarValue::Other => DataType::Other }
+        match self { ScalarValue::Boolean(_) => DataType::Boolean, ScalarValue::Int64(_) => DataType::Int64, ScalarValue::Other => DataType::Other }
+    }
+    /// ScalarValue::is_null on the model (a NULL endpoint means 'unbounded')
+    pub fn is_null(&self) -> (r: bool) ensures r == (*self == ScalarValue::Boolean(None) || *self == ScalarValue::Int64(None)) {
+        match self { ScalarValue::Boolean(None) => true, ScalarValue::Int64(None) => true, _ => false }
     }
 }
 #[verifier::external_body]
@@ -25,3 +29,11 @@ impl Interval {
         ensures r is Ok, r->Ok_0 == has(iv_mask(*self), if value == ScalarValue::Boolean(Some(true)) { 4int } else { 1int }),
     { unimplemented!() }
 }
+pub open spec fn int_of(v: ScalarValue) -> Option<int> { match v { ScalarValue::Int64(Some(x)) => Some(x as int), _ => None } }
+/// R13: `a <= b`, `a < b`, `a >= b`, `a > b` on ScalarValue (PartialOrd), specified for two non-NULL Int64 values
+#[verifier::external_body]
+pub fn sv_le(a: ScalarValue, b: ScalarValue) -> (r: bool)
+    ensures (int_of(a) is Some && int_of(b) is Some) ==> r == (int_of(a)->Some_0 <= int_of(b)->Some_0) { unimplemented!() }
+#[verifier::external_body]
+pub fn sv_lt(a: ScalarValue, b: ScalarValue) -> (r: bool)
+    ensures (int_of(a) is Some && int_of(b) is Some) ==> r == (int_of(a)->Some_0 < int_of(b)->Some_0) { unimplemented!() }
